@@ -88,6 +88,7 @@ CLAIMS.update({
     note='Two genuine defects repaired (fix: 94fd825, 5381a3d). ConfigParser syntax / interpolation not modelled.', technique='Coq proof over regenerated tables + differential correspondence of the configuration getters', ref='7 C19'),
 })
 # --- entries superseding the ones above (theorems landed)
+CORR = 'differential correspondence implementation / extracted Coq Engine model / extracted Coq Spec'
 CLAIMS.update({
  'C01': dict(
     text='Proof (Coq) + correspondence. Theorems (Props/C01.v, all axiom-free): the null filter is exact; str.join inverts str.split; the engine regex and the R2RML template parser read every well-formed template alike; '
